@@ -118,14 +118,6 @@ package nsqd
 
 // Constructors (assumed, bodies not verified: they build disk queues, start goroutines and notify
 // the lookup loop): a fresh object with the given identity; no existing modelled state changes.
-//@ func NewTopic(topicName string, nsqd *NSQD, deleteCallback func(*Topic)) *Topic
-//@   trusted
-//@   ensures result != nil && fresh(result) && result.name == topicName && result.nsqd == nsqd && result.idFactory != nil && result.backend != nil
-//@   modifies
-//@ func NewChannel(topicName string, channelName string, nsqd *NSQD, deleteCallback func(*Channel)) *Channel
-//@   trusted
-//@   ensures result != nil && fresh(result) && result.name == channelName && result.topicName == topicName && result.nsqd == nsqd
-//@   modifies
 
 // n.lookupPeers (an atomic.Value) only ever holds a []*lookupPeer (single Store in lookupLoop), so the
 // type assertion in the body cannot fail; the function only reads. Assumed (same reason as getOpts).
